@@ -1,4 +1,4 @@
-import AnsiModel.Slice
+import AnsiModel.StrLike
 /-
   AnsiModel.Obj — the primitives the *statement-by-statement* translation of object-mutating methods
   is written in (`harness/pyobj.py` → `AnsiModel/Generated/Methods.lean`).
@@ -79,6 +79,25 @@ def dictNe (d : List (Nat × Setting)) (k : Nat) (v : Setting) : Bool :=
   match (d.find? (fun kv => kv.1 == k)) with
   | some kv => kv.2.txt != v.txt
   | none => true
+
+/-- `s.find(sub, start)` as Python answers it: the index, or -1 -/
+def findInt (s sub : Str) (start : Int) : Int :=
+  match Py.find s sub (listIdx s.length start) with
+  | some i => (i : Int)
+  | none => -1
+
+/-- `s.rfind(sub)`: the index, or -1 -/
+def rfindInt (s sub : Str) : Int :=
+  match Py.rfind s sub with
+  | some i => (i : Int)
+  | none => -1
+
+/-- `s.split(sep, maxsplit)` / `s.rsplit(sep, maxsplit)`; an empty separator is `str`'s ValueError -/
+def pySplit (s : Str) (sep : Option Str) (maxsplit : Int) (r : Bool) : Except Exc (List Str) :=
+  match sep with
+  | some [] => .error (.py .valueError)
+  | some sp => .ok (if r then Py.rsplitSep s sp maxsplit else Py.splitSep s sp maxsplit)
+  | none => .ok (if r then Py.rsplitWs s maxsplit else Py.splitWs s maxsplit)
 
 /-- `l[i] = v`; IndexError outside `-len ≤ i < len` -/
 def setIdx {α : Type} (l : List α) (i : Int) (v : α) : Except Exc (List α) :=
